@@ -89,6 +89,19 @@ func (f *Frame) doCall(instr ssa.Instruction, cc *ssa.CallCommon, st *State, rt 
 			e.check(f, st, "no-panic.nilfunc", "call of nil function value", sNot(sEq(v.S, "func.nil")), pos)
 		}
 		name := funcValueName(cc.Value)
+		// a function loaded from a struct field with a declared lock footprint: lock-order obligations at the call
+		if tn, fld, ok := funcFieldOf(cc.Value); ok {
+			for _, cf := range e.P.Contracts {
+				for _, class := range cf.FuncFields[tn+"."+fld] {
+					for k := range st.locks {
+						if k[strings.Index(k, "|")+1:] == class {
+							e.ob(f, "lock.reentrant", "a function stored in "+tn+"."+fld+" acquires "+class+" which may already be held here (self-deadlock)", st.cond, "false", pos)
+						}
+					}
+					e.lockLevelCheck(f, st, class, pos)
+				}
+			}
+		}
 		if r, ok := e.funcValueCall(f, st, cc, v, args, rt, pos); ok {
 			return r
 		}
@@ -1039,4 +1052,19 @@ func (e *Engine) writeBack(st *State, args []Val) {
 		srt := e.sortOf(p.Elem())
 		e.store(st, l, fmt.Sprintf("(select %s %s)", e.getHeapP(st, srt), a.S))
 	}
+}
+
+// funcFieldOf: the function value is loaded from field fld of a struct of type tn.
+func funcFieldOf(v ssa.Value) (tn, fld string, ok bool) {
+	u, isLoad := v.(*ssa.UnOp)
+	if !isLoad || u.Op != token.MUL {
+		return "", "", false
+	}
+	fa, isFA := u.X.(*ssa.FieldAddr)
+	if !isFA {
+		return "", "", false
+	}
+	pt := fa.X.Type().Underlying().(*types.Pointer).Elem()
+	st := pt.Underlying().(*types.Struct)
+	return typeName(pt), st.Field(fa.Field).Name(), true
 }
